@@ -52,7 +52,10 @@ RULE = (
     "text <=14 chars (ASCII, double-width, combining, newline, space; only characters representable in the "
     "encoding whose encoded length equals their width in wide mode), width 1..20, wrap space/any/clip, align, "
     "multiline, allow_tab, mask, initial cursor, op list <=40 (quick) / <=80 (thorough) of printable keys, "
-    "left/right/up/down/home/end, backspace, delete, enter, tab, unrelated keys, button-1 clicks on any cell}; "
+    "left/right/up/down/home/end, backspace, delete, enter, tab, unrelated keys, button-1 clicks on any cell, "
+    "and (one element in eight) a run of 2..4 consecutive up/down keys optionally started by home/end/left/right "
+    "or a click in the first or last column, so that the preferred column - 0 and width-1 included - is carried "
+    "over several rows}; "
     "numeric: IntEdit, IntegerEdit(base 2..36, allow_negative), FloatEdit(separator, allow_negative, "
     "preserve_significance; the options passed as the modern keywords, as the deprecated but still accepted "
     "decimalSeparator=/preserveSignificance= keywords, or positionally) "
@@ -786,18 +789,26 @@ SUBS = {"edit": check_edit, "numeric": check_numeric}
 
 def _ops(typed, max_ops):
     keyop = st.sampled_from(typed).map(lambda c: ["k", c])
-    return st.lists(
-        st.one_of(
-            keyop, keyop, keyop,
-            st.sampled_from(NAV).map(lambda k: ["k", k]),
-            st.sampled_from(NAV).map(lambda k: ["k", k]),
-            st.sampled_from(["backspace", "delete", "backspace", "delete", "enter", "tab"]).map(lambda k: ["k", k]),
-            st.sampled_from(UNRELATED).map(lambda k: ["k", k]),
-            st.tuples(st.just("click"), st.integers(0, 99), st.integers(0, 99)).map(list),
-        ),
-        min_size=1,
-        max_size=max_ops,
+    single = st.one_of(
+        keyop, keyop, keyop,
+        st.sampled_from(NAV).map(lambda k: ["k", k]),
+        st.sampled_from(NAV).map(lambda k: ["k", k]),
+        st.sampled_from(["backspace", "delete", "backspace", "delete", "enter", "tab"]).map(lambda k: ["k", k]),
+        st.sampled_from(UNRELATED).map(lambda k: ["k", k]),
+        st.tuples(st.just("click"), st.integers(0, 99), st.integers(0, 99)).map(list),
     )
+    # "keeping the preferred column" is only observable over consecutive vertical moves: a run of 2..4 up/down
+    # keys, optionally started from an edge of the row (home, end, or a click in the first / last column -
+    # the remembered column is then 0 or width-1, the extremes of its range) or from a left/right step
+    anchor = st.one_of(
+        st.none(),
+        st.sampled_from(["home", "end", "left", "right"]).map(lambda k: ["k", k]),
+        st.tuples(st.just("click"), st.sampled_from([0, 99]), st.integers(0, 99)).map(list),
+    )
+    run = st.tuples(anchor, st.lists(st.sampled_from(["up", "down"]).map(lambda k: ["k", k]), min_size=2, max_size=4)).map(
+        lambda t: ([t[0]] if t[0] is not None else []) + t[1])
+    chunk = st.one_of(*([single.map(lambda o: [o])] * 7 + [run]))
+    return st.lists(chunk, min_size=1, max_size=max_ops).map(lambda cs: [o for c in cs for o in c][:max_ops])
 
 
 _listener = st.fixed_dictionaries({
